@@ -164,6 +164,16 @@ def src_limits():
         for j, (kw, tail) in enumerate([("Scenario", ""), ("Scenario Outline", f"{pad}    Examples:\n{pad}      | x |\n{pad}      | 1 |\n"), ("Background", "")]):
             out.append((f"docstring-in:{k}:{j}", f"Feature: f\n{pre}{pad}  {kw}: s1\n{pad}    Given a <x>\n{pad}      \"\"\"text/plain\n{pad}      Rule: not a rule\n{pad}        @tag\n# comment\n\n{pad}      | a |\n{pad}      ```\n"
                         f"{pad}      Scenario: no\n{pad}      \"\"\"\n{pad}    Then b\n{pad}      ```\n{pad}      c\n{pad}      ```\n{tail}\n{pad}  Scenario: s2\n{pad}    Given c\n{post}", "en"))
+    # empty-but-present constructs: empty names, an empty doc string, empty cells, cell-less rows, a description of blank lines only, a tag line of blanks and a comment
+    out.append(("empty-constructs:0", "Feature:\n  Rule:\n    Background:\n      * \n    Scenario:\n      Given \n        \"\"\"\n        \"\"\"\n      And\n        ```\n\n        ```\n    Scenario Outline:\n      When <>\n        ||\n"
+                "      Examples:\n        |  |\n        |  |\n      Examples:\n      Examples:\n        | a |\n", "en"))
+    out.append(("empty-constructs:1", "Feature: \n\n   \n  \t\n  Scenario: \n\n    \n  @a\n  #\n  @b  #  \n  Scenario:\n    * x\n      | |  |   |\n      ||||\n", "en"))
+    out.append(("empty-constructs:2", "#language:en\n@\nFeature: f\n", "en"))
+    out.append(("empty-constructs:3", "Feature: f\n  Scenario Outline: o\n    Given <a>\n    Examples:\n      | a |\n    Examples:\n      | a |\n      |  |\n    @t\n    Examples:\n", "en"))
+    # wide (non-BMP) characters BEFORE the thing whose column is reported: tags, cells, comment after a tag, keyword after a wide blank is not possible -- but names and texts
+    out.append(("wide-before", "@\U0001f600a @b\U0001f600 @c\nFeature: \U0001f600 f\n  Scenario Outline: \U0001f600<\U0001f600>\n    Given \U0001f600 <\U0001f600> x\n      | \U0001f600 | b\U0001f600 |  \U0001f600c |\n"
+                "      | \\|\U0001f600 | \\n | d |\n    @\U0001f600 @e #\U0001f600\n    Examples: \U0001f600\n      | \U0001f600 | x |\n      | \U0001f600\U0001f600 | \U0001f600 |\n", "en"))
+    out.append(("wide-before-error", "Feature: f\n  Scenario: s\n    Given x\n      | \U0001f600 | b |\n      | \U0001f600 |\n  @\U0001f600 bad \U0001f600\n \U0001f600junk\n", "en"))
     # counts beyond any small-number threshold (caches, recursion depth, fixed-size buffers): more than a thousand of each repeatable construct
     N = 1100
     out.append(("count:tags-on-line", " ".join(f"@t{i}" for i in range(300)) + "\nFeature: f\n  " + "".join(f"@u{i}" for i in range(300)) + "\n  Scenario: s\n", "en"))
